@@ -123,3 +123,14 @@ Proof.
   destruct H as (Ha & Hb & Hc). split; [exact Ha|]. split; [exact Hb|].
   intros fuel key s Hr. apply (Hc fuel). apply bd_read_src_rec_go. exact Hr.
 Qed.
+
+(* ---- full strength for the loop in the source tree (holds because the translator reports the
+   repaired loop; if the source goes back to `break` inside the switch this lemma stops
+   type-checking and the check reports the broken obligation) ---- *)
+Lemma bd_src_absent_full comp klen c ws :
+  let sws := bd_stored_ws comp c ws in
+  let db := bd_write_all bd_create sws in
+  let buf := bd_index_body (bd_idx db) in
+  bd_ws_ok klen sws -> forall key, bd_last_written ws key = None ->
+  forall fuel, (bd_fuel buf klen <= fuel)%nat -> bd_read_src fuel klen buf (bd_data db) key = BdReadNotFound.
+Proof. exact (bd_src_absent comp klen c ws). Qed.
